@@ -26,6 +26,10 @@ class B(A):
     pass
 
 
+class C(B):
+    """third class of the chain A <- B <- C"""
+
+
 class X(Comp):
     pass
 
@@ -40,6 +44,10 @@ class PA(desper.Processor):
 
 class PB(PA):
     priority = 2
+
+
+class PC(PB):
+    """third class of the chain PA <- PB <- PC"""
 
 
 class Ctl(desper.Controller):
@@ -140,6 +148,9 @@ def apply(op, T, w, ctl, e, via, newtag):
         elif op == 'ref-set-sub':      # a B assigned through the A reference
             c = B(tag=newtag)
             r = setattr(ctl, 'ref_a', c) if via else w.add_component(e, c)
+        elif op == 'ref-set-subsub':   # a C (two levels below A) assigned through the A reference
+            c = C(tag=newtag)
+            r = setattr(ctl, 'ref_a', c) if via else w.add_component(e, c)
         elif op == 'ref-del':
             name = {A: 'ref_a', B: 'ref_b', X: 'ref_x'}[T]
             if via:
@@ -156,6 +167,9 @@ def apply(op, T, w, ctl, e, via, newtag):
         elif op == 'proc-set-sub':
             p = PB(tag=newtag)
             r = setattr(ctl, 'proc_a', p) if via else w.add_processor(p)
+        elif op == 'proc-set-subsub':
+            p = PC(tag=newtag)
+            r = setattr(ctl, 'proc_a', p) if via else w.add_processor(p)
         elif op == 'proc-del':
             P = {'proc_a': PA, 'proc_b': PB}[T]
             if via:
@@ -171,7 +185,7 @@ def apply(op, T, w, ctl, e, via, newtag):
 
 
 COMP_OPS = ['add_component', 'remove_component', 'has_component', 'get_component', 'ref-get', 'ref-set', 'ref-del']
-NULLARY = ['get_components', 'delete', 'ref-set-sub', 'proc-set-sub']
+NULLARY = ['get_components', 'delete', 'ref-set-sub', 'proc-set-sub', 'ref-set-subsub', 'proc-set-subsub']
 PROC_OPS = ['proc-get', 'proc-set', 'proc-del']
 
 
@@ -376,6 +390,10 @@ def h_proto(sp, n_types=3, same_name=True, falsy=True):
         sub_ns['init_methods'] = sub_init_methods
     Base = type('Proto', (desper.Prototype,), base_ns)
     cls = type('SubProto', (Base,), sub_ns) if use_sub else Base
+    # further empty levels below: the chain Proto <- SubProto <- Deeper1 (<- Deeper2) inherits everything unchanged
+    for lvl in range(sp.choose(3, 'extra-empty-levels')):
+        cls = type('Deeper%d' % (lvl + 1), (cls,), {})
+        sp.cover('prototype-chain-depth-3' if use_sub else 'prototype-chain-depth-2')
     # expected resolution, straight from the statement
     eff_dict = sub_init_methods if sub_init_methods is not None else base_ns.get('init_methods', {})
     for i, t in enumerate(kinds):
